@@ -204,3 +204,10 @@ Example om2_square_class :
   classes_okb sq_kin sq_ops v [map fst v] [0%nat] = true /\
   classes_okb sq_kin sq_ops v [firstn 2 (map fst v); skipn 2 (map fst v)] [0%nat; 0%nat] = false.
 Proof. vm_compute. split; reflexivity. Qed.
+
+(* pruning matters for a wider kinetic range: kinetic = 3 jumps, thermodynamic = 1 jump *)
+Example om1_square_pruned :
+  let kin := states sq_jumps 1 3 true in
+  length (om1_list kin sq_tjumps (fun _ => true)) = 64%nat /\
+  length (om1_list kin sq_tjumps (fun s => mem s (states sq_jumps 1 1 false))) = 24%nat.
+Proof. vm_compute. split; reflexivity. Qed.
